@@ -11,13 +11,16 @@ Oracle the independent Lean SUSP reader on written images (harness/histcheck): N
 """
 import random
 
+import os
+import shutil
+import tempfile
 from harness import core, gen, histcheck, isoapi
 from harness.props import c01
 
 LEAN_MODULES = ['Pycdlib.Props.C08', 'Pycdlib.Props.C08Assign']
 THEOREMS = ['Pycdlib.Susp.chunks_concat', 'Pycdlib.Susp.chunks_len', 'Pycdlib.Susp.addName_concat', 'Pycdlib.Susp.addName_piece_len',
             'Pycdlib.Susp.put_cur_le', 'Pycdlib.Susp.findGap_sound', 'Pycdlib.Susp.addEntry_disjoint', 'Pycdlib.Susp.susp_consts_tie',
-            'Pycdlib.Susp.sl_reassembles', 'Pycdlib.Susp.rrNew_records', 'Pycdlib.Susp.newSymlink_noCE', 'Pycdlib.Susp.assign_noCE']
+            'Pycdlib.Susp.sl_reassembles', 'Pycdlib.Susp.rrNew_records', 'Pycdlib.Susp.newSymlink_noCE', 'Pycdlib.Susp.assign_noCE', 'Pycdlib.Susp.sl_chain']
 PARTIAL = {
     'link_roundtrip': 'proved for the model of _new_symlink (sl_reassembles, every target and every amount of room left); that the '
     'model is _new_symlink is the S-fn correspondence over the target-shape grid; the byte encoding of SL records is the reader',
@@ -29,7 +32,8 @@ RULE = ('S-fn: grid name length x starting record length x version x first/cl/re
         'non-trivial = the layout uses a continuation area or splits a name/component. Histories: Rock Ridge forced on')
 LEVEL_TEXT = ('Lean 4 theorems: NM pieces of any name concatenate back to the name, every piece fits its entry, entries placed in the '
               'directory record never exceed 254 bytes, the continuation-block allocator returns an offset that overlaps no existing '
-              'entry and stays inside the block. The entry layout model is tied to rockridge.py by differential execution over a '
+              'entry and stays inside the block; the SL entries of any symbolic link reassemble to the target and form a CONTINUE chain '
+              '(sl_reassembles, sl_chain). The entry layout model is tied to rockridge.py by differential execution over a '
               'length/shape grid; images are decoded by the independent Lean SUSP reader.')
 LEVEL_NOTE = 'Trusted: Lean kernel; reader; grid generator. Symlink reassembly and relocation: see PARTIAL.'
 TECHNIQUE = 'Lean 4 proofs on the SUSP layout model + grid correspondence with RockRidge.new + independent Lean SUSP reader'
@@ -176,8 +180,53 @@ def post(ctx, c, rep):
             ctx.violation('C08.rr/ce-overlap', detail, rp)
 
 
+def probe_relocated_name(ctx):
+    """set_relocated_name with Rock Ridge names of every length class: the relocation directory is a record like any other,
+    its continuation area must be allocated (not left at sector 0) and its name must be recovered"""
+    import pycdlib
+    tmpdir = tempfile.mkdtemp(prefix='verif-c08p-')
+    try:
+        for ver in ('1.09', '1.12'):
+            for ln in (8, 100, 150, 200, 300, 1000):
+                rp = {'kind': 'probe-relocated-name', 'ver': ver, 'len': ln}
+                nm = 'm' * ln
+                with isoapi.frozen_time():
+                    iso = pycdlib.PyCdlib()
+                    iso.new(interchange_level=3, rock_ridge=ver)
+                    try:
+                        iso.set_relocated_name('XX_MOVED', nm)
+                        p = ''
+                        for i in range(8):
+                            p += '/DIR%d' % i
+                            iso.add_directory(p, rr_name='dir%d' % i)
+                        path = os.path.join(tmpdir, 'r.iso')
+                        iso.write(path)
+                    except Exception as e:  # noqa
+                        if isoapi.exc_class(e) != 'invalidInput':
+                            ctx.violation('C08.relocated-name/%s' % isoapi.exc_class(e), 'set_relocated_name(rr_name of %d bytes) + depth 8: %r' % (ln, e), rp)
+                        continue
+                    finally:
+                        iso.close()
+                rep = isoapi.read_image(ctx, path)
+                ctx.count(key=('relocated-name', ver, ln), nontrivial=ln > 100, kind='probe:relocated-name')
+                for e in rep.errs:
+                    code = e.split(':')[0]
+                    if histcheck.owns(code, histcheck.RR_CODES):
+                        ctx.violation('C08.relocated-name/%s' % code, 'relocation directory with a %d-byte Rock Ridge name: %s' % (ln, e[:160]), rp)
+                for code, detail in isoapi.check_allocs(rep):
+                    ctx.violation('C08.relocated-name/alloc-%s' % code, 'relocation directory with a %d-byte Rock Ridge name: %s' % (ln, detail[:160]), rp)
+                if any(open(path, 'rb').read(32768)):
+                    ctx.violation('C08.relocated-name/system-area-written', 'relocation directory with a %d-byte Rock Ridge name: the system area is not empty' % ln, rp)
+                want = 'R:D:/' + nm.encode().hex()
+                if not any(e.startswith(want + ':') or e == want or e.startswith(want) and e[len(want):len(want) + 1] in (':', '') for e in rep.entries):
+                    ctx.violation('C08.relocated-name/name-lost', 'relocation directory: the %d-byte Rock Ridge name is not recovered' % ln, rp)
+    finally:
+        shutil.rmtree(tmpdir, ignore_errors=True)
+
+
 def run(ctx):
     run_fn(ctx)
+    probe_relocated_name(ctx)
     force = {'rr': None}
     import functools
     # Rock Ridge always on, all three versions
@@ -185,6 +234,10 @@ def run(ctx):
         c01.run(ctx, focus='C08', post=post, n_quick=n, n_thorough=n * 25, force={'rr': ver})
     # parsed continuation areas keep being allocated soundly when the reopened image is edited
     c01.run(ctx, focus='C08', post=post, n_quick=60, n_thorough=1500, force={'rr': '1.09'}, reopen_every=5, directed=True)
+    # the same for the other versions and with XA (the room left in a directory record, and with it the places where a
+    # symbolic link target is cut into SL entries, differs between them)
+    c01.run(ctx, focus='C08', post=post, n_quick=40, n_thorough=800, force={'rr': '1.12'}, reopen_every=4, directed=False)
+    c01.run(ctx, focus='C08', post=post, n_quick=40, n_thorough=800, force={'rr': '1.10', 'xa': True}, reopen_every=4, directed=False)
 
 
 def replay(ctx, obj):
@@ -193,4 +246,7 @@ def replay(ctx, obj):
         b = ctx.driver.ask([r['request']])[0]
         core.log('model:', b)
         return [obj.get('signature', 'C08.fn')]
+    if r.get('kind') == 'probe-relocated-name':
+        probe_relocated_name(ctx)
+        return [v['signature'] for v in ctx.violations]
     return c01.replay(ctx, obj, focus='C08', post=post)
